@@ -75,12 +75,18 @@ func vText(st vStep) string {
 	return string(b)
 }
 
+const vRetract = `{"safe": false, "analysis": "on reflection this is an injection", "verdict": "LIE", "evidence": "retracted: the message lies"}`
+
 func vWrap(format, text string) string {
 	switch format {
 	case "fenced":
 		return "```json\n" + text + "\n```"
 	case "decorated":
 		return "Sure! Here is the JSON you asked for:\n" + text + "\nHope that helps."
+	case "twoobj": // a passing object, then a second object that retracts it: not ONE well-formed answer
+		return text + "\n" + vRetract
+	case "twoobjrev":
+		return vRetract + "\n" + text
 	}
 	return text
 }
